@@ -5,6 +5,7 @@ import Sonic.Proofs.FtoaChk
 import Sonic.Proofs.FtoaMain
 import Sonic.Proofs.FtoaSchubMain
 import Sonic.Proofs.FtoaRne
+import Sonic.Proofs.FtoaFastChk
 
 /-!
 # C07 — finite doubles print as the shortest decimal that reads back to the same double
@@ -456,13 +457,91 @@ example : cqOfBits 0x4D73DE005BD620DF = (5592117679628511, 164) ∧
     f64ToDecimal (0x4D73DE005BD620DF % 2 ^ 52) (0x4D73DE005BD620DF / 2 ^ 52 % 2 ^ 11) 5592117679628511 164 =
       some ⟨13076622631878654, 49⟩ := by decide +kernel
 
+/-! ## both paths: every finite non-zero double -/
+
+/-- **The integer fast path satisfies the certificate too.**  The double is the integer `u = fastVal bits`
+    (`q ≤ 0`, so the rounding interval has half-width at most `1/2` and `u` is the only integer in it); the printed
+    decimal is `u` with its trailing zeros moved into the exponent. -/
+theorem C07_fast_chk (bits : Nat) (hfin : bits / 2 ^ 52 % 2 ^ 11 ≠ 2047) (hnz : bits % 2 ^ 63 ≠ 0)
+    (hfast : FastInt bits) :
+    chk (cqOfBits bits).1 (cqOfBits bits).2 (normalize (fastVal bits) 0).1 (normalize (fastVal bits) 0).2 = true := by
+  obtain ⟨_, _, _, hval, _⟩ := C07_integer_path zeroBuf 0 bits hfin hnz hfast
+  have hv := C07_validCQ bits hfin hnz
+  obtain ⟨f1, f2, f3, f4⟩ := hfast
+  have hq : (cqOfBits bits).2 ≤ 0 := by
+    unfold cqOfBits
+    unfold rexpOf at f1 f3
+    simp only [if_neg f1]
+    omega
+  have hu : 1 ≤ fastVal bits := by
+    have hpow : 2 ^ (1075 - rexpOf bits) ≤ 2 ^ 52 := Nat.pow_le_pow_right (by decide) (by omega)
+    have hpos : 0 < 2 ^ (1075 - rexpOf bits) := Nat.pow_pos (by decide)
+    unfold fastVal
+    exact (Nat.le_div_iff_mul_le hpos).2 (by omega)
+  exact int_chk _ _ _ hv.1 hq hu hval
+
+/-- everything the certificate gives for a printed text, in one statement (`C07_checker_sound` +
+    `C07_chk_reparse_signed`) -/
+theorem C07_of_chk (b : Buf) (out bits : Nat) (hb : bits < 2 ^ 64)
+    (hfin : bits / 2 ^ 52 % 2 ^ 11 ≠ 2047) (hnz : bits % 2 ^ 63 ≠ 0) (o : Out) (p : Nat × Int)
+    (h1 : f64toa b out bits = some o)
+    (h2 : parseDecText (slice o.st.buf out o.ret) = some (negOf bits, p))
+    (hc : chk (cqOfBits bits).1 (cqOfBits bits).2 p.1 p.2 = true) :
+    ∃ o sig exp, f64toa b out bits = some o ∧
+      parseDecText (slice o.st.buf out o.ret) = some (negOf bits, sig, exp) ∧
+      chk (cqOfBits bits).1 (cqOfBits bits).2 sig exp = true ∧
+      RoundTrips (cqOfBits bits).1 (cqOfBits bits).2 sig exp ∧
+      MinimalDigits (cqOfBits bits).1 (cqOfBits bits).2 sig exp ∧
+      ClosestAmongMinimal (cqOfBits bits).1 (cqOfBits bits).2 sig exp ∧
+      Rne.round (negOf bits) sig exp = some bits := by
+  have hv := C07_validCQ bits hfin hnz
+  obtain ⟨s1, s2, s3⟩ := C07_checker_sound _ _ _ _ hv hc
+  exact ⟨o, p.1, p.2, h1, h2, hc, s1, s2, s3, C07_chk_reparse_signed bits hb hfin hnz p.1 p.2 hc⟩
+
+/-- **C07, closing statement.**  For every finite non-zero double, whichever path `F64toa` takes (integer fast path or
+    Schubfach): the model does not fault; the printed text is a JSON number whose sign is the sign bit and which
+    denotes the decimal `sig·10^exp`; that decimal satisfies the certificate, hence reads back as the same double
+    under round-to-nearest-even, no decimal with fewer significant digits does, none with as many digits that reads
+    back is closer (ties: even significand); and the exact reference reader `Spec.Rne.round` (the oracle of C04)
+    returns exactly `bits` for it. -/
+theorem C07_print_shortest_and_reparses (b : Buf) (out bits : Nat) (hb : bits < 2 ^ 64)
+    (hfin : bits / 2 ^ 52 % 2 ^ 11 ≠ 2047) (hnz : bits % 2 ^ 63 ≠ 0) :
+    ∃ o sig exp, f64toa b out bits = some o ∧
+      parseDecText (slice o.st.buf out o.ret) = some (negOf bits, sig, exp) ∧
+      chk (cqOfBits bits).1 (cqOfBits bits).2 sig exp = true ∧
+      RoundTrips (cqOfBits bits).1 (cqOfBits bits).2 sig exp ∧
+      MinimalDigits (cqOfBits bits).1 (cqOfBits bits).2 sig exp ∧
+      ClosestAmongMinimal (cqOfBits bits).1 (cqOfBits bits).2 sig exp ∧
+      Rne.round (negOf bits) sig exp = some bits := by
+  by_cases hfast : FastInt bits
+  · obtain ⟨o, h1, _, _, h4, _⟩ := C07_integer_path b out bits hfin hnz hfast
+    exact C07_of_chk b out bits hb hfin hnz o _ h1 h4 (C07_fast_chk bits hfin hnz hfast)
+  · obtain ⟨o, d, h1, _, h3, _, _, _, _, _, h5, _⟩ := C07_decimal_path b out bits hfin hnz hfast
+    exact C07_of_chk b out bits hb hfin hnz o _ h1 h5 (C07_schubfach bits hb hfin hnz hfast d h3)
+
+-- non-vacuity: fast-path doubles 1.0, 123456.0, 2^53 - 1, 1e15, 2^52 (hypotheses and the certificate, by evaluation)
+example : FastInt 0x3FF0000000000000 ∧ fastVal 0x3FF0000000000000 = 1 ∧
+    chk (cqOfBits 0x3FF0000000000000).1 (cqOfBits 0x3FF0000000000000).2 1 0 = true := by decide +kernel
+example : FastInt 4683220244930494464 ∧ normalize (fastVal 4683220244930494464) 0 = (123456, 0) := by decide +kernel
+example : FastInt 0x433FFFFFFFFFFFFF ∧ fastVal 0x433FFFFFFFFFFFFF = 2 ^ 53 - 1 ∧
+    cqOfBits 0x433FFFFFFFFFFFFF = (2 ^ 53 - 1, 0) := by decide +kernel
+example : FastInt 0x430C6BF526340000 ∧ normalize (fastVal 0x430C6BF526340000) 0 = (1, 15) ∧
+    chk (cqOfBits 0x430C6BF526340000).1 (cqOfBits 0x430C6BF526340000).2 1 15 = true := by decide +kernel
+example : FastInt 0x4330000000000000 ∧ fastVal 0x4330000000000000 = 4503599627370496 := by decide +kernel
+-- both paths and a negative double satisfy the hypotheses of the closing theorem
+example : (0x3FF0000000000000 < 2 ^ 64 ∧ 0x3FF0000000000000 / 2 ^ 52 % 2 ^ 11 ≠ 2047 ∧ 0x3FF0000000000000 % 2 ^ 63 ≠ 0) ∧
+    (13728134904377344886 < 2 ^ 64 ∧ 13728134904377344886 / 2 ^ 52 % 2 ^ 11 ≠ 2047 ∧
+      13728134904377344886 % 2 ^ 63 ≠ 0 ∧ negOf 13728134904377344886 = true) := by decide +kernel
+
 /-!
 ## Nothing open
 
-`C07_schubfach` (the chosen decimal satisfies the certificate) + `C07_checker_sound` (what the certificate means on exact
-rationals) + `C07_chk_reparse(_signed)` (the certificate implies that the correctly rounding reference reader `Spec.Rne.round`
-maps the printed decimal back to the same bits) cover the whole statement of C07 for the model.  The driver still prints `chk=` and
-`rt=` per input: they now serve as an independent cross-check of these theorems and of the tie between model and compiled code.
+`C07_print_shortest_and_reparses` is the whole statement of C07 for the model, for every finite non-zero double and both
+paths: `C07_schubfach` / `C07_fast_chk` (the printed decimal satisfies the certificate) + `C07_checker_sound` (what the
+certificate means on exact rationals) + `C07_chk_reparse(_signed)` (the certificate implies that the correctly rounding
+reference reader `Spec.Rne.round` maps the printed decimal back to the same bits); `C07_zero` covers ±0 and the
+non-finite values.  The driver still prints `chk=` and `rt=` per input: they now serve as an independent cross-check of
+these theorems and of the tie between model and compiled code.
 -/
 
 end Sonic.Props.C07
